@@ -59,6 +59,8 @@ import (
 	"github.com/codenotary/immudb/embedded/sql"
 	"github.com/codenotary/immudb/embedded/store"
 	"verif/mc/lib"
+	"verif/mc/sched"
+	"verif/mc/sqlconc"
 )
 
 var (
@@ -1095,6 +1097,20 @@ func ext(path []int, op int) []int { return append(append(make([]int, 0, len(pat
 
 func main() {
 	c = lib.New("C12", "model_checking", 100*time.Second, 25*time.Minute)
+	if sched.IsWorker() {
+		sqlconc.Phase(c, "C12", 0, 1) // shard worker of the concurrent-sessions phase: does not return
+	}
+	if c.ReplayPath != "" {
+		var sr struct {
+			Scenario string `json:"scenario"`
+		}
+		c.LoadReplay(&sr)
+		if sr.Scenario != "" {
+			sqlconc.Phase(c, "C12", 0, 1) // schedule replay: does not return
+		}
+	}
+	fullDeadline := c.Deadline
+	c.Deadline = c.Start.Add(fullDeadline.Sub(c.Start) * 65 / 100) // the sequential phases get 65% of the budget
 	c.Assume("sequential part only: one session, no concurrent transactions (the concurrent-sessions phase is a separate exploration)")
 	c.Assume("one table per store; values from 2-3 element colliding domains; no temporal queries, no restart between statements")
 	c.Assume("state deduplication assumes that the future of a committed state depends only on the latest version (incl. tombstones) of every catalog/index entry, not on transaction ids or older revisions")
@@ -1123,7 +1139,18 @@ func main() {
 		maxDepth, maxTx = 5, func(n int) int { return min(n, 4) }
 	}
 	explore(all, maxDepth, maxTx)
-	// (a later phase — concurrent sessions under the controlled scheduler — plugs in here, before Finish)
+	// concurrent sessions under the controlled scheduler (engine E1, package sqlconc)
+	seqDone := !c.Expired()
+	c.Deadline = fullDeadline
+	bound, each := 1, 12*time.Second
+	if c.Thorough() {
+		bound, each = 2, 90*time.Second
+	}
+	concDone := sqlconc.Phase(c, "C12", each, bound)
+	_ = concDone
+	if !seqDone {
+		c.CapHit("sequential phase stopped at its share of the time budget")
+	}
 	c.Set("model_divergences_not_reported", atomic.LoadInt64(&nModelDiverged))
 	c.Set("must_fail_expectations_evaluated", atomic.LoadInt64(&nMustFailSeen))
 	c.Set("failed_statements_checked_for_effects", atomic.LoadInt64(&nFailedStmts))
